@@ -539,7 +539,8 @@ def build_ops(plan, workdir):
                      ("pypy38", "bytecode_pypy38/*.pyc"), ("pypy36", "bytecode_pypy36/*.pyc"), ("3.6", "bytecode_3.6/*.pyc")):
         if quick and fam in ("pypy36", "3.6"):
             continue
-        fs = sorted((os.path.getsize(f), f) for f in glob.glob(os.path.join(test, pat)) if 200 <= os.path.getsize(f) <= 3000)
+        every = sorted((os.path.getsize(f), f) for f in glob.glob(os.path.join(test, pat)))
+        fs = [x for x in every if 200 <= x[0] <= 3000] or every[:1]   # a family with one (larger) file still gets its op
         if fs:
             ops.append(("disasm-variant:%s:extended" % fam, op_disasm(fs[-1][1], "extended")))
     for fam in ("2.7", "3.8", "3.12"):
